@@ -100,3 +100,24 @@ pub fn main() -> i32 {
         0
     }
 }
+
+pub fn dbg_lattice() {
+    use zmodel::frame::*;
+    let d = crate::gen::model_dict(77);
+    let raw = d.serialize().unwrap();
+    for (p, ll, r, ml) in [(0usize, 0usize, 65usize, 3usize), (0, 0, 64, 3), (0, 0, 66, 3), (0, 0, 100, 3), (3, 2, 65, 5), (0, 0, 1000, 3)] {
+        let mut blocks = vec![];
+        if p > 0 {
+            blocks.push(Block::Raw((0..p).map(|i| 0xA0 + i as u8).collect()));
+        }
+        let off = p + ll + r;
+        blocks.push(Block::Compressed { lits: Lits::Raw((0..ll + 1).map(|i| 0x10 + i as u8).collect(), 0), count_form: 1, modes: pre(), seqs: vec![Seq { ll: ll as u32, ml: ml as u32, of: 3 + off as u32 }], pick: 0 });
+        let header = Header { window_desc: Some(0), dict_id: Some((1, d.id)), ..Default::default() };
+        let mut st = EncState::from_dict(&d);
+        let body = encode_blocks(&blocks, &mut st).unwrap();
+        let mut frame = encode_header(&header).unwrap();
+        frame.extend(body);
+        println!("{:?} frame {} -> libzstd {:?}", (p, ll, r, ml), crate::ev::hex(&frame), crate::refz::decode_with_dict(&frame, &raw).map(|v| crate::ev::hex(&v)));
+    }
+    println!("dict content {}", crate::ev::hex(&d.content));
+}
